@@ -60,7 +60,12 @@ pub const TABLE: &[(&str, usize, &[&str])] = &[
     ("FOO", 0, &["a", "b"]),
     ("PRIVMSGS", 0, &["n1", "x"]),
     ("123", 0, &["x"]),
+    // (letters whose Unicode upper case is ASCII: command names are ASCII only)
+    ("\u{131}SON", 0, &["n1"]),
+    ("QU\u{131}T", 0, &["bye"]),
+    ("PA\u{df}", 0, &["x"]),
 ];
+const UNKNOWN_ROWS: usize = 6;
 
 #[derive(Clone, Debug, Serialize, Deserialize)]
 pub struct VerbCase {
@@ -110,7 +115,7 @@ fn classify(lines: &[String]) -> (&'static str, String) {
 
 pub fn check_verb(c: &VerbCase, st: &mut Stats) -> Result<(), Viol> {
     let (verb, min, params) = TABLE[c.verb % TABLE.len()];
-    let known = c.verb % TABLE.len() < TABLE.len() - 3;
+    let known = c.verb % TABLE.len() < TABLE.len() - UNKNOWN_ROWS;
     let (mut w, me) = scene(c.verb as u64);
     let mut ps: Vec<String> = params.iter().take(c.arity).map(|s| s.to_string()).collect();
     while ps.len() < c.arity {
